@@ -164,3 +164,70 @@ def const_int(f, op):
     if r[0] == "const" and "v" in r[1] and not isinstance(r[1]["v"], bool):
         return r[1]["v"]
     return None
+
+
+def path_event_range(f, start, stops, events, avoid=()):
+    """(min, max) number of event blocks on any path from `start` to a block in `stops`
+    (the stop block itself is not counted, the start block is). Paths through `avoid` blocks
+    are ignored. Returns None if the region between them contains a cycle (not a DAG) or no
+    path reaches a stop."""
+    stops = set(stops)
+    events = set(events)
+    avoid = set(avoid)
+    memo = {}
+    onstack = set()
+    import sys
+    sys.setrecursionlimit(max(10000, sys.getrecursionlimit()))
+
+    class Cycle(Exception):
+        pass
+
+    def go(b):
+        if b in stops:
+            return (0, 0)
+        if b in memo:
+            return memo[b]
+        if b in onstack:
+            raise Cycle()
+        onstack.add(b)
+        lo, hi = None, None
+        for s in f.succ[b]:
+            if s in avoid:
+                continue
+            r = go(s)
+            if r is None:
+                continue
+            lo = r[0] if lo is None else min(lo, r[0])
+            hi = r[1] if hi is None else max(hi, r[1])
+        onstack.discard(b)
+        if lo is None:
+            memo[b] = None
+        else:
+            e = 1 if b in events else 0
+            memo[b] = (lo + e, hi + e)
+        return memo[b]
+
+    try:
+        return go(start)
+    except Cycle:
+        return None
+
+
+def natural_loops(f):
+    """back edges (a -> h with h dominating a) and their loop bodies."""
+    out = []
+    for a in f.rpo:
+        for h in f.succ[a]:
+            if f.dominates(h, a):
+                body = {h, a}
+                st = [a]
+                while st:
+                    x = st.pop()
+                    if x == h:
+                        continue
+                    for p in f.pred[x]:
+                        if p not in body and p in f.idom:
+                            body.add(p)
+                            st.append(p)
+                out.append((h, a, body))
+    return out
